@@ -15,7 +15,8 @@ filter:
 
 Oracle, per fault history:
   1. the run completes, or refuses with ValueError (batch: the record; streaming: the faulted sample, after which the
-     caller keeps the previous estimate and goes on).  Any other exception type, and a ValueError on a VALID sample
+     caller keeps the previous estimate and goes on).  Any other exception type (numpy's LinAlgError included, although
+     it derives from ValueError: a failed factorisation is a crash, not a refusal), and a ValueError on a VALID sample
      after the dropout, is a violation.
   2. every emitted row is finite and (when the filter's fault-free output is unit at all) a unit quaternion.
   3. differential recovery: W samples after the last faulted row the estimate is within tol_f of the same filter's
@@ -40,29 +41,74 @@ UNIT_TOL = 1e-9
 
 # name: (filter, arch, frame, streaming entry, heading side of the tilt measure, tol_f [rad], batch runs start from q0 = truth)
 CONFIGS = {
-    'Madgwick-IMU':       ('Madgwick', 'IMU', None, True, 'left', 0.1, False),
-    'Madgwick-MARG':      ('Madgwick', 'MARG', None, True, 'left', 0.1, False),
-    'Mahony-IMU':         ('Mahony', 'IMU', None, True, 'left', 0.1, False),
-    'Mahony-MARG':        ('Mahony', 'MARG', None, True, 'left', 0.1, False),
-    'EKF-IMU-NED':        ('EKF', 'IMU', 'NED', True, 'left', 0.1, False),
-    'EKF-IMU-ENU':        ('EKF', 'IMU', 'ENU', True, 'left', 0.1, True),
-    'EKF-MARG-NED':       ('EKF', 'MARG', 'NED', True, 'left', 0.1, False),
-    'EKF-MARG-ENU':       ('EKF', 'MARG', 'ENU', True, 'left', 0.1, True),
-    'UKF-IMU':            ('UKF', 'IMU', None, True, 'left', 0.1, False),
-    'AQUA-IMU':           ('AQUA', 'IMU', None, True, 'right', 0.1, False),
-    'AQUA-MARG':          ('AQUA', 'MARG', None, True, 'right', 0.1, False),
-    'Fourati-MARG':       ('Fourati', 'MARG', None, True, 'left', 0.1, False),
-    'ROLEQ-MARG-NED':     ('ROLEQ', 'MARG', 'NED', True, 'left', 0.1, False),
-    'ROLEQ-MARG-ENU':     ('ROLEQ', 'MARG', 'ENU', True, 'left', 0.1, True),
-    'FKF-MARG':           ('FKF', 'MARG', None, False, 'left', 0.1, False),
-    'Complementary-IMU':  ('Complementary', 'IMU', None, False, 'left', 0.1, False),
-    'Complementary-MARG': ('Complementary', 'MARG', None, False, 'left', 0.1, False),
+    'Madgwick-IMU':       ('Madgwick', 'IMU', None, True, 'left', 0.13, False),
+    'Madgwick-MARG':      ('Madgwick', 'MARG', None, True, 'left', 0.13, False),
+    'Mahony-IMU':         ('Mahony', 'IMU', None, True, 'left', 0.02, False),
+    'Mahony-MARG':        ('Mahony', 'MARG', None, True, 'left', 0.02, False),
+    'EKF-IMU-NED':        ('EKF', 'IMU', 'NED', True, 'left', 0.006, False),
+    'EKF-IMU-ENU':        ('EKF', 'IMU', 'ENU', True, 'left', 0.006, True),
+    'EKF-MARG-NED':       ('EKF', 'MARG', 'NED', True, 'left', 0.006, False),
+    'EKF-MARG-ENU':       ('EKF', 'MARG', 'ENU', True, 'left', 0.006, True),
+    'UKF-IMU':            ('UKF', 'IMU', None, True, 'left', 0.4, False),
+    'AQUA-IMU':           ('AQUA', 'IMU', None, True, 'right', 0.02, False),
+    'AQUA-MARG':          ('AQUA', 'MARG', None, True, 'right', 0.02, False),
+    'Fourati-MARG':       ('Fourati', 'MARG', None, True, 'left', 0.02, False),
+    'ROLEQ-MARG-NED':     ('ROLEQ', 'MARG', 'NED', True, 'left', 2e-05, False),
+    'ROLEQ-MARG-ENU':     ('ROLEQ', 'MARG', 'ENU', True, 'left', 0.002, True),
+    'FKF-MARG':           ('FKF', 'MARG', None, False, 'left', 0.012, False),
+    'Complementary-IMU':  ('Complementary', 'IMU', None, False, 'left', 0.001, False),
+    'Complementary-MARG': ('Complementary', 'MARG', None, False, 'left', 0.002, False),
 }
 
 RULE = ('one evaluation = one fault history (configuration, entry point, base attitude, fault) run to completion on the real '
         'filter; distinct by that tuple; non-trivial when the faulted run is observably different from the fault-free run '
         '(it refused, or at least one emitted row differs)')
-ASSUMPTIONS = []
+ASSUMPTIONS = [
+    'dropout = the whole tri-axial sample reads exactly 0.0 (the statement: "all zeros"); partial zeros, NaN and tiny non-zero '
+    'readings are not faults of this menu',
+    'base record: 44 rows at 100 Hz, exact readings acc = 9.81 R^T g_ref, mag = 50 R^T m_ref of a body that starts at the base '
+    'attitude (identity, or MENU[k]) and turns with the body rates 0.005 rad/s * (sin(0.7t+0.3), cos(1.1t), sin(0.4t+1)) '
+    '(never zero: an all-zero gyro makes Madgwick/Mahony/AQUA/Fourati return the prior by design); g_ref/m_ref are read back '
+    'from an instance (EKF, ROLEQ, Fourati) or +z / [cos 60, 0, sin 60] (Mahony-MARG: [0, cos 60, -sin 60], the heading of its '
+    'am2q start); magnetic references are always explicit (dip 60 deg) because the defaults come from a WMM evaluated at import time',
+    'EKF frame=ENU and ROLEQ frame=ENU batch runs get q0 = the true start attitude: their own initialisation (acc2q / ecompass / '
+    '21 OLEQ iterations) does not start at the fixed point of their ENU measurement model (180 deg / ~2 rad off), and a record '
+    'that begins in that transient is not "otherwise valid, converged" (that is C05 business); with q0 the first row is not '
+    'consumed, so first-row faults are trivial for these three configurations (counted in class trivial:...)',
+    'information only: base.tracking_defect = | rotation angle from row 0 of the fault-free estimate - the same for the true '
+    'motion | (convention-free) is <= 2.4e-3 rad for every configuration (UKF 8e-3), i.e. every base run is converged',
+    'streaming entry: one update call per row (row 0 included) on a fresh data-less instance, started from the first row of the '
+    'fault-free batch run; a ValueError on a faulted row is a refusal of that sample (allowed): the caller carries the previous '
+    'estimate; a ValueError on a non-faulted row is a violation (state corrupted by the dropout)',
+    'batch entry: ValueError from the constructor (or from reading .Q) is a refusal of the record (allowed by the statement); it is '
+    'not possible to tell from outside which row raised, so a NaN that is caught one row later by Quaternion()\'s NaN check counts '
+    'as a refusal in batch mode - the streaming entry and the tail faults (NaN in the last row has no later row) expose it',
+    'unit norm: | |q| - 1 | <= 1e-9 (observed <= 3.4e-16); judged only when the fault-free output of the same configuration is unit '
+    '(FKF never is: reported once per base run at its own site, not once per fault)',
+    'recovery oracle is differential: deviation = rotation angle between faulted and fault-free estimate of the SAME filter on the '
+    'same record (full angle for MARG; for IMU architectures the heading-free swing angle about the reference z axis, taken on '
+    'the side on which the state composes a heading change: left, AQUA right), maximum over all rows later than W = 24 rows after '
+    'the last faulted row; faults that reach the end of the record have no judged rows',
+    'tol_f = 100 x the worst deviation observed over the whole thorough menu on the unchanged tree, rounded up (observed -> tol, rad): '
+    'Madgwick 1.29e-3 -> 0.13 (its fixed-length gradient step gain*dt = 4e-4 makes two runs chatter apart); Mahony 1.74e-4 -> 0.02; '
+    'EKF 5.6e-5 -> 0.006; UKF 3.6e-3 -> 0.4 (streaming: its covariance reset makes the estimate jitter by ~1e-2); AQUA 1.84e-4 -> 0.02; '
+    'Fourati 1.95e-4 -> 0.02; ROLEQ-NED 1.5e-7 -> 2e-5; ROLEQ-ENU 1.65e-5 -> 2e-3; FKF 1.05e-4 -> 0.012; Complementary IMU 8.9e-6 -> 1e-3, '
+    'MARG 1.57e-5 -> 2e-3.  Most of the observed deviation is physical (up to three missed gyro samples = 1.5e-4 rad that slow '
+    'filters keep for seconds), which is why the body rate is small.  The upper rule (<= 1e-3 x smallest mutation effect) cannot be met by a '
+    'differential oracle of this kind: the smallest finite mutation tried (dropout fallback called with acc and gyr swapped) '
+    'deviates 0.09 rad per faulted row, i.e. 4.5 x tol for Mahony; NaN-type mutations are caught by the finiteness oracle instead',
+    'first-row faults in BATCH mode only change the initial estimate (IMU architectures fall back to the identity attitude, '
+    'up to 1.4 rad away); how fast a filter converges from far away is C05 - here only "the deviation does not grow": '
+    'deviation over the judged rows <= max(tol_f, deviation right after the fault); observed ratio <= 0.993',
+    'ROLEQ\'s batch initialisation draws a start vector from numpy\'s global generator: the harness re-seeds it (seed 0) before '
+    'every run so that faulted and fault-free runs start alike; nothing in the oracle path is random',
+    'numpy.linalg.LinAlgError (singular / not positive definite) derives from ValueError but is judged as "other exception": it is a '
+    'failed factorisation, not a refusal of invalid input',
+    'a configuration x attitude whose FAULT-FREE run does not complete (UKF: Cholesky failure on clean data at MENU[2] and MENU[7]) is '
+    'reported once at its own site and its fault histories are not enumerated (class skipped:base-run-failed)',
+    'FKF and Complementary have no streaming entry; UKF has no MARG architecture; AQUA ignores `frame`; Complementary is also '
+    'judged on its native output W (angles)',
+]
 REQUIRED_CLASSES = ['pos:first', 'pos:interior', 'pos:last', 'len:1', 'len:2', 'len:3', 'len:all', 'pairs',
                     'sensors:acc', 'sensors:mag', 'sensors:gyr', 'sensors:acc+mag', 'sensors:acc+mag+gyr',
                     'entry:batch', 'entry:stream', 'outcome:completed', 'outcome:refused-record(batch)',
@@ -165,6 +211,8 @@ def run_batch(spec, g, a, m, q0):
     np.random.seed(0)           # ROLEQ's batch initialisation (OLEQ) draws its start vector from the global generator
     try:
         Q, extra = spec.batch(g.copy(), a.copy(), m.copy() if spec.arch == 'MARG' else None, None if q0 is None else q0.copy())
+    except np.linalg.LinAlgError as ex:         # a ValueError subclass, but a numerical crash, not a refusal
+        return ('error', f'{type(ex).__name__}: {ex}'[:240])
     except ValueError as ex:
         return ('refused', str(ex)[:160])
     except Exception as ex:
@@ -189,6 +237,8 @@ def run_stream(spec, q_init, g, a, m, faulted):
     for t in range(len(g)):
         try:
             qn = step(q.copy(), g[t].copy(), a[t].copy(), m[t].copy())
+        except np.linalg.LinAlgError as ex:     # a ValueError subclass, but a numerical crash, not a refusal
+            return ('error', t, f'{type(ex).__name__}: {ex}'[:240])
         except ValueError as ex:
             if t in faulted:
                 refused.append(t)
@@ -222,9 +272,12 @@ def key_of(spec, entry, att, fault):
 
 def the_menu(arch, tier, att_index):
     """Quick: singles/whole/tail on both attitudes, same-sensor pairs on the generic attitude only.
-    Thorough: everything, with all ordered sensor-set combinations for the pairs, on every attitude."""
-    m = rf.menu(arch, N_START, LENS, N, mixed_pairs=(tier == 'thorough'))
-    if tier != 'thorough' and att_index == 0:
+    Thorough: everything on every attitude; the pairs carry all ordered sensor-set combinations on the first three
+    attitudes (identity, MENU[0], MENU[1]) and the same sensor set at both rows on the other six."""
+    if tier == 'thorough':
+        return rf.menu(arch, N_START, LENS, N, mixed_pairs=att_index <= 2)
+    m = rf.menu(arch, N_START, LENS, N, mixed_pairs=False)
+    if att_index == 0:
         m = [f for f in m if len(f) == 1]
     return m
 
